@@ -215,7 +215,7 @@ theorem C15_rel_set_then_get_relaxed (g : Row) (hg : g ∈ Gen.Accessors.rows) (
   refine ⟨k, _, h1, h2, h3, rfl, h5, ?_, v3, v4⟩
   simp [relGetRelaxed, h4, v2]
 
-/-! ### substitution variables: the strict getters panic -/
+/-! ## 3 — substitution variables: the strict getters panic -/
 
 theorem rootLoop_dollar_errs (t : Rel.Tok) (r : List Rel.Tok) (ht : t.1 = Rel.Kind.DOLLAR) :
     (Rel.rootLoop false (t :: r)).errs ≠ [] := by
